@@ -9,6 +9,14 @@ use tlsh::hash::HexStringPrefix;
 use tlsh::length::{DataLengthProcessingMode, DataLengthValidity, FuzzyHashLengthEncoding};
 use tlsh::{ComparisonConfiguration, FuzzyHashType, GeneratorType};
 
+/// A call into the library: heap allocations made while it runs are counted (see `crate::alloc_count`);
+/// the glue around it (token parsing, output formatting) is not.
+macro_rules! L {
+    ($e:expr) => {
+        crate::alloc_count::lib(|| $e)
+    };
+}
+
 fn n(t: &[Tok], i: usize) -> u64 {
     match t.get(i) {
         Some(Tok::N(x)) => *x,
@@ -89,7 +97,7 @@ fn cmp_mode(m: &str) -> ComparisonConfiguration {
 
 fn bin_of<T: FuzzyHashType>(h: &T) -> String {
     let mut buf = vec![0u8; T::SIZE_IN_BYTES];
-    h.store_into_bytes(&mut buf).unwrap();
+    L!(h.store_into_bytes(&mut buf)).unwrap();
     hex(&buf)
 }
 
@@ -210,12 +218,18 @@ fn parse_script(t: &[Tok], mut i: usize) -> ScriptReader {
 pub fn dispatch(t: &[Tok]) -> String {
     let op = s(t, 0);
     match op {
+        // na <op ...>: the number of heap allocations made INSIDE the library calls of <op ...>, then its output
+        "na" => {
+            crate::alloc_count::reset();
+            let r = dispatch(&t[1..]);
+            format!("{} | {}", crate::alloc_count::get(), r)
+        }
         // ---------------------------------------------------------------- LEN
-        "len_new" => match FuzzyHashLengthEncoding::new(n(t, 1) as u32) {
+        "len_new" => match L!(FuzzyHashLengthEncoding::new(n(t, 1) as u32)) {
             Some(e) => format!("some {}", e.value()),
             None => "none".to_string(),
         },
-        "len_tryfrom" => match FuzzyHashLengthEncoding::try_from(n(t, 1) as u32) {
+        "len_tryfrom" => match L!(FuzzyHashLengthEncoding::try_from(n(t, 1) as u32)) {
             Ok(e) => format!("ok {}", e.value()),
             Err(e) => format!("err {:?}", e),
         },
@@ -259,13 +273,13 @@ pub fn dispatch(t: &[Tok]) -> String {
         }),
         // ------------------------------------------------------------ HEX/BIN
         "parse" => for_variant!(s(t, 1), T, {
-            res_hash(T::from_str_bytes(b(t, 3), prefix_mode(s(t, 2))))
+            res_hash(L!(T::from_str_bytes(b(t, 3), prefix_mode(s(t, 2)))))
         }),
         "fromstr" => for_variant!(s(t, 1), T, {
             match std::str::from_utf8(b(t, 2)) {
                 Ok(st) => {
-                    let r1 = res_hash(st.parse::<T>());
-                    let r2 = res_hash(T::from_str_with(st, None));
+                    let r1 = res_hash(L!(st.parse::<T>()));
+                    let r2 = res_hash(L!(T::from_str_with(st, None)));
                     if r1 != r2 {
                         format!("INCONSISTENT fromstr {} vs from_str_with {}", r1, r2)
                     } else {
@@ -275,20 +289,20 @@ pub fn dispatch(t: &[Tok]) -> String {
                 Err(_) => panic!("HARNESS: fromstr needs UTF-8"),
             }
         }),
-        "frombytes" => for_variant!(s(t, 1), T, { res_hash(T::try_from(b(t, 2))) }),
+        "frombytes" => for_variant!(s(t, 1), T, { res_hash(L!(T::try_from(b(t, 2)))) }),
         "fromarray" => for_variant!(s(t, 1), T, {
             // TryFrom<&[u8; SIZE]>
             const SZ: usize = <T as FuzzyHashType>::SIZE_IN_BYTES;
             let arr: [u8; SZ] = b(t, 2).try_into().expect("HARNESS: fromarray needs exact size");
-            res_hash(T::try_from(&arr))
+            res_hash(L!(T::try_from(&arr)))
         }),
         "fmt" => for_variant!(s(t, 1), T, {
-            match T::try_from(b(t, 2)) {
+            match L!(T::try_from(b(t, 2))) {
                 Err(e) => format!("hasherr {:?}", e),
                 Ok(h) => {
                     let p = prefix_mode(s(t, 3)).expect("HARNESS: fmt needs a prefix");
                     let mut buf = b(t, 4).to_vec();
-                    match h.store_into_str_bytes(&mut buf, p) {
+                    match L!(h.store_into_str_bytes(&mut buf, p)) {
                         Ok(k) => format!("ok {} {}", k, hex(&buf)),
                         Err(e) => format!("err {:?} {}", e, hex(&buf)),
                     }
@@ -296,11 +310,11 @@ pub fn dispatch(t: &[Tok]) -> String {
             }
         }),
         "storebytes" => for_variant!(s(t, 1), T, {
-            match T::try_from(b(t, 2)) {
+            match L!(T::try_from(b(t, 2))) {
                 Err(e) => format!("hasherr {:?}", e),
                 Ok(h) => {
                     let mut buf = b(t, 3).to_vec();
-                    match h.store_into_bytes(&mut buf) {
+                    match L!(h.store_into_bytes(&mut buf)) {
                         Ok(k) => format!("ok {} {}", k, hex(&buf)),
                         Err(e) => format!("err {:?} {}", e, hex(&buf)),
                     }
@@ -308,7 +322,7 @@ pub fn dispatch(t: &[Tok]) -> String {
             }
         }),
         "display" => for_variant!(s(t, 1), T, {
-            match T::try_from(b(t, 2)) {
+            match L!(T::try_from(b(t, 2))) {
                 Err(e) => format!("hasherr {:?}", e),
                 Ok(h) => {
                     let a = h.to_string();
@@ -334,55 +348,68 @@ pub fn dispatch(t: &[Tok]) -> String {
             )
         }),
         "parts" => for_variant!(s(t, 1), T, {
-            match T::try_from(b(t, 2)) {
+            match L!(T::try_from(b(t, 2))) {
                 Err(e) => format!("hasherr {:?}", e),
                 Ok(h) => {
                     let nb = T::NUMBER_OF_BUCKETS;
-                    let q: Vec<u8> = (0..nb).map(|i| h.body().quartile(i)).collect();
-                    format!(
-                        "{} {} {} {} {} {} {} {} {}",
-                        hex(h.checksum().data()),
+                    let mut q = vec![0u8; nb];
+                    L!(for (i, x) in q.iter_mut().enumerate() {
+                        *x = h.body().quartile(i);
+                    });
+                    let (ck, lv, qv, q1, q2, body, ckv, lenv) = L!((
+                        h.checksum().data(),
                         h.length().value(),
                         h.qratios().value(),
                         h.qratios().q1ratio(),
                         h.qratios().q2ratio(),
-                        hex(h.body().data()),
+                        h.body().data(),
+                        h.checksum().is_valid(),
+                        h.length().is_valid(),
+                    ));
+                    format!(
+                        "{} {} {} {} {} {} {} {} {}",
+                        hex(ck),
+                        lv,
+                        qv,
+                        q1,
+                        q2,
+                        hex(body),
                         hex(&q),
-                        h.checksum().is_valid() as u8,
-                        h.length().is_valid() as u8,
+                        ckv as u8,
+                        lenv as u8,
                     )
                 }
             }
         }),
         "quartile" => for_variant!(s(t, 1), T, {
-            match T::try_from(b(t, 2)) {
+            match L!(T::try_from(b(t, 2))) {
                 Err(e) => format!("hasherr {:?}", e),
-                Ok(h) => format!("{}", h.body().quartile(n(t, 3) as usize)),
+                Ok(h) => format!("{}", L!(h.body().quartile(n(t, 3) as usize))),
             }
         }),
         "valid" => for_variant!(s(t, 1), T, {
             // FuzzyHashChecksum::is_valid / FuzzyHashLengthEncoding::is_valid of a value (any build)
-            match T::try_from(b(t, 2)) {
+            match L!(T::try_from(b(t, 2))) {
                 Err(e) => format!("hasherr {:?}", e),
-                Ok(h) => format!("{} {}", h.checksum().is_valid() as u8, h.length().is_valid() as u8),
+                Ok(h) => { let (a, c) = L!((h.checksum().is_valid(), h.length().is_valid())); format!("{} {}", a as u8, c as u8) }
             }
         }),
         "clearcks" => for_variant!(s(t, 1), T, {
-            match T::try_from(b(t, 2)) {
+            match L!(T::try_from(b(t, 2))) {
                 Err(e) => format!("hasherr {:?}", e),
                 Ok(mut h) => {
-                    h.clear_checksum();
+                    L!(h.clear_checksum());
                     bin_of(&h)
                 }
             }
         }),
         // --------------------------------------------------------------- DIST
         "cmp" => for_variant!(s(t, 1), T, {
-            match (T::try_from(b(t, 2)), T::try_from(b(t, 3))) {
+            match (L!(T::try_from(b(t, 2))), L!(T::try_from(b(t, 3)))) {
                 (Ok(a), Ok(c)) => {
                     let m = cmp_mode(s(t, 4));
-                    let d = a.compare_with_config(&c, m);
-                    if m == ComparisonConfiguration::Default && a.compare(&c) != d {
+                    let d = L!(a.compare_with_config(&c, m));
+                    if m == ComparisonConfiguration::Default && L!(a.compare(&c)) != d {
                         "INCONSISTENT compare".to_string()
                     } else {
                         format!("{}", d)
@@ -394,12 +421,12 @@ pub fn dispatch(t: &[Tok]) -> String {
         }),
         "laws" => for_variant!(s(t, 1), T, {
             // every relation of C08 on one pair, through the public API only
-            match (T::try_from(b(t, 2)), T::try_from(b(t, 3))) {
+            match (L!(T::try_from(b(t, 2))), L!(T::try_from(b(t, 3)))) {
                 (Ok(a), Ok(c)) => {
                     let (dm, nm) = (ComparisonConfiguration::Default, ComparisonConfiguration::NoLength);
                     let (mut ca, mut cc) = (a, c);
-                    ca.clear_checksum();
-                    cc.clear_checksum();
+                    L!(ca.clear_checksum());
+                    L!(cc.clear_checksum());
                     let ndiff = a
                         .checksum()
                         .data()
@@ -407,8 +434,7 @@ pub fn dispatch(t: &[Tok]) -> String {
                         .zip(c.checksum().data().iter())
                         .filter(|(x, y)| x != y)
                         .count();
-                    format!(
-                        "{} {} {} {} {} {} {} {} {} {} {} {} {} {}",
+                    let v = L!((
                         a.compare_with_config(&c, dm),
                         c.compare_with_config(&a, dm),
                         a.compare_with_config(&c, nm),
@@ -418,11 +444,14 @@ pub fn dispatch(t: &[Tok]) -> String {
                         a.length().compare(c.length()),
                         ca.compare_with_config(&cc, dm),
                         ca.compare_with_config(&cc, nm),
-                        ndiff,
                         T::max_distance(dm),
                         T::max_distance(nm),
-                        (a == c) as u8,
-                        a.compare(&c)
+                        a == c,
+                        a.compare(&c),
+                    ));
+                    format!(
+                        "{} {} {} {} {} {} {} {} {} {} {} {} {} {}",
+                        v.0, v.1, v.2, v.3, v.4, v.5, v.6, v.7, v.8, ndiff, v.9, v.10, v.11 as u8, v.12
                     )
                 }
                 (Err(e), _) => format!("hasherr {:?}", e),
@@ -541,11 +570,11 @@ pub fn dispatch(t: &[Tok]) -> String {
             }
         }
         "hash" => for_variant!(s(t, 1), T, {
-            let mut g = tlsh::generate::Generator::<T>::new();
-            g.update(b(t, 3));
-            res_hash(g.finalize_with_options(&options(n(t, 2))))
+            let mut g = L!(tlsh::generate::Generator::<T>::new());
+            L!(g.update(b(t, 3)));
+            res_hash(L!(g.finalize_with_options(&options(n(t, 2)))))
         }),
-        "hashbuf" => for_variant!(s(t, 1), T, { res_hash(tlsh::hash_buf_for::<T>(b(t, 2))) }),
+        "hashbuf" => for_variant!(s(t, 1), T, { res_hash(L!(tlsh::hash_buf_for::<T>(b(t, 2)))) }),
         // hist V [inject xBUCKETS len xCKS xTAIL taillen] ops...
         "hist" => for_variant!(s(t, 1), T, {
             type G = tlsh::generate::Generator<T>;
@@ -568,13 +597,13 @@ pub fn dispatch(t: &[Tok]) -> String {
                 }
             }
             if stack.is_empty() {
-                stack.push(G::new());
+                stack.push(L!(G::new()));
             }
             let mut out: Vec<String> = vec![];
             while i < t.len() {
                 match s(t, i) {
                     "u" => {
-                        stack.last_mut().unwrap().update(b(t, i + 1));
+                        L!(stack.last_mut().unwrap().update(b(t, i + 1)));
                         i += 2;
                     }
                     "ugen" => {
@@ -582,26 +611,26 @@ pub fn dispatch(t: &[Tok]) -> String {
                         let mut st = n(t, i + 1) as u32;
                         let k = n(t, i + 2) as usize;
                         let d: Vec<u8> = (0..k).map(|_| lcg_next(&mut st)).collect();
-                        stack.last_mut().unwrap().update(&d);
+                        L!(stack.last_mut().unwrap().update(&d));
                         i += 3;
                     }
                     "uzero" => {
                         // update with ONE slice of n zero bytes (n may exceed 4 GiB)
                         let k = n(t, i + 1) as usize;
                         let d = vec![0u8; k];
-                        stack.last_mut().unwrap().update(&d);
+                        L!(stack.last_mut().unwrap().update(&d));
                         i += 2;
                     }
                     "f" => {
-                        out.push(res_hash(stack.last().unwrap().finalize_with_options(&options(n(t, i + 1)))));
+                        out.push(res_hash(L!(stack.last().unwrap().finalize_with_options(&options(n(t, i + 1))))));
                         i += 2;
                     }
                     "fd" => {
-                        out.push(res_hash(stack.last().unwrap().finalize()));
+                        out.push(res_hash(L!(stack.last().unwrap().finalize())));
                         i += 1;
                     }
                     "l" => {
-                        out.push(match stack.last().unwrap().processed_len() {
+                        out.push(match L!(stack.last().unwrap().processed_len()) {
                             Some(x) => format!("some {}", x),
                             None => "none".to_string(),
                         });
@@ -620,7 +649,7 @@ pub fn dispatch(t: &[Tok]) -> String {
                         i += 1;
                     }
                     "c" => {
-                        let g = stack.last().unwrap().clone();
+                        let g = L!(stack.last().unwrap().clone());
                         stack.push(g);
                         i += 1;
                     }
@@ -700,7 +729,7 @@ pub fn dispatch(t: &[Tok]) -> String {
         "cmpstr" => for_variant!(s(t, 1), T, {
             let l = std::str::from_utf8(b(t, 2)).expect("HARNESS: utf8");
             let r = std::str::from_utf8(b(t, 3)).expect("HARNESS: utf8");
-            match tlsh::compare_with::<T>(l, r) {
+            match L!(tlsh::compare_with::<T>(l, r)) {
                 Ok(d) => format!("ok {}", d),
                 Err(e) => format!("err {:?} {:?}", e.side(), e.inner_err()),
             }
@@ -708,7 +737,7 @@ pub fn dispatch(t: &[Tok]) -> String {
         "cmpstr_default" => {
             let l = std::str::from_utf8(b(t, 1)).expect("HARNESS: utf8");
             let r = std::str::from_utf8(b(t, 2)).expect("HARNESS: utf8");
-            match tlsh::compare(l, r) {
+            match L!(tlsh::compare(l, r)) {
                 Ok(d) => format!("ok {}", d),
                 Err(e) => format!("err {:?} {:?}", e.side(), e.inner_err()),
             }
